@@ -1,10 +1,10 @@
 #!/bin/bash
-# tools/import_seeds.sh Cxx : copy the sub-agent's outputs /tmp/seed_out/Cxx/m* into /verif/seeded/<Cxx>-<name>/
-P=$1
-for d in /tmp/seed_out/$P/m*; do
+# tools/import_seeds.sh Cxx [outroot=/tmp/seed_out] [tag=]: copy a sub-agent's outputs <outroot>/Cxx/m* into /verif/seeded/<Cxx>-<tag><name>/
+P=$1; ROOT=${2:-/tmp/seed_out}; TAG=${3:-}
+for d in $ROOT/$P/m*; do
   [ -f "$d/meta.json" ] || continue
   name=$(python3 -c "import json,sys,re; print(re.sub(r'[^a-z0-9-]+','-',json.load(open('$d/meta.json'))['name'].lower())[:60])")
-  t=/verif/seeded/$P-$name
+  t=/verif/seeded/$P-$TAG$name
   mkdir -p $t && cp $d/patch.diff $d/demo.py $d/meta.json $t/
   echo $t
 done
